@@ -66,7 +66,7 @@ pub fn gen_long_history(check: &str, seed: u64, tier: Tier) -> Run {
     }
     run.set("oracle_seed", (f.next() >> 1) as i64);
     if check == "C13" {
-        run.set("analysis", Rng::stream(seed, "analysis").chance(1, 3) as i64);
+        run.set("analysis", [0, 0, 0, 0, 1, 2][Rng::stream(seed, "analysis").below(6)]);
     }
     run
 }
@@ -95,7 +95,7 @@ impl Check for HistoryCheck {
         // a third of the runs carry the simulator's analysis (min size / depth / height): worklist
         // entries then come in two kinds (analysis-only and full) and data changes re-queue parents
         if run.get("analysis") != 0 {
-            self.exec_with(run, EGraph::new(crate::analysis::SimAn { p: 3, modify: false }))
+            self.exec_with(run, EGraph::new(crate::analysis::SimAn { p: 3, modify: run.get("analysis") == 2 }))
         } else {
             self.exec_with(run, EGraph::new(()))
         }
